@@ -60,6 +60,9 @@ class Ctx:
         return d
 
     def cleanup(self):
+        if os.environ.get("VERIF_KEEP"):        # debugging aid: leave the scratch directory behind
+            say("scratch kept: " + self.scratch_root)
+            return
         shutil.rmtree(self.scratch_root, ignore_errors=True)
 
     def quick(self):
